@@ -16,6 +16,11 @@
 (define-fun-rec nth ((l TList) (i Int)) Term (ite (<= i 0) (hd l) (nth (tl l) (- i 1))))
 (define-fun isbound ((s Store) (v Int)) Bool ((_ is Bound) (select s v)))
 
+; a term is RESOLVED w.r.t. a store when no bound variable occurs in it at any depth
+(define-funs-rec ((isres ((t Term) (s Store)) Bool) (isresl ((l TList) (s Store)) Bool))
+ ((ite ((_ is TVar) t) (not (isbound s (vid t))) (ite ((_ is TFun) t) (isresl (fargs t) s) true))
+  (ite ((_ is nil) l) true (and (isres (hd l) s) (isresl (tl l) s)))))
+
 ; resolve: the fully dereferenced term (every bound variable replaced, at every depth)
 (define-funs-rec (
   (resolve ((t Term) (s Store)) Term)
@@ -24,6 +29,15 @@
        (ite (isbound s (vid t)) (resolve (bval (select s (vid t))) s) t)
        (ite ((_ is TFun) t) (TFun (fname t) (resolvel (fargs t) s)) t))
   (ite ((_ is nil) l) nil (cons (resolve (hd l) s) (resolvel (tl l) s)))))
+
+; L-RES (proved by induction in vf/lemmas.py; acyclic stores): resolve returns a resolved term; a resolved term is a
+; fixed point of resolve; resolvel works pointwise and keeps the length
+(assert (forall ((t Term) (s Store)) (! (isres (resolve t s) s) :pattern ((resolve t s)))))
+(assert (forall ((l TList) (s Store)) (! (isresl (resolvel l s) s) :pattern ((resolvel l s)))))
+(assert (forall ((t Term) (s Store)) (! (=> (isres t s) (= (resolve t s) t)) :pattern ((isres t s) (resolve t s)))))
+(assert (forall ((l TList) (s Store)) (! (= (len (resolvel l s)) (len l)) :pattern ((resolvel l s)))))
+(assert (forall ((l TList) (s Store) (i Int)) (! (=> (and (<= 0 i) (< i (len l))) (= (nth (resolvel l s) i) (resolve (nth l i) s)))
+   :pattern ((nth (resolvel l s) i)))))
 
 ; walk: follow variable-to-variable bindings at the root only
 (define-fun-rec walk ((t Term) (s Store)) Term
